@@ -19,6 +19,7 @@ def run(ck, progs):
     ck.rule("C06.8", "early anti-message list: linked completely before it is published, unlinked before it is released, initially empty")
     for cfg, P in progs.items():
         rules_msg.check_rmw_protocol(ck, P, "C06.1")
+        rules_msg.check_rmw_tag_discipline(ck, P, "C06.1")
         rules_msg.check_typestate(ck, P, "C06.3", "C06.2")
         rules_msg.check_release_ownership(ck, P, "C06.4")
         rules_msg.check_flag_access(ck, P, "C06.5")
